@@ -21,7 +21,7 @@ class RandomBehaviour:
     schedule (needed for C04; harmless elsewhere)."""
 
     def __init__(self, seed, tb_next=(1, 2, 3), ev_next=(None, None, 1, 2), p_event=0.6, p_future=0.2,
-                 future=(0, 1, 2), sparse_pers=False, p_none=0.0, recur=0, p_extra=0.0, jump=0, p_time_echo=0.0, future_pers=False):
+                 future=(0, 1, 2), sparse_pers=False, p_none=0.0, recur=0, p_extra=0.0, jump=0, p_time_echo=0.0, future_pers=False, hold=0):
         self.seed = seed
         self.tb_next = tb_next
         self.ev_next = ev_next
@@ -30,6 +30,10 @@ class RandomBehaviour:
         self.future = future
         self.sparse_pers = sparse_pers
         self.future_pers = future_pers  # replies with persistent attributes may be dated into the future as well
+        # hold > 0 (>= 3): a persistent value is HELD for `hold` consecutive steps - the very same object is sent again - and the first
+        # reply of each run is announced ahead (dated 1-2 steps into the future), the later ones at their own time: output times are
+        # not monotone, but any two productions whose order is inverted carry the same value ("the most recent due value" is unambiguous)
+        self.hold = hold
         self.jump = jump  # > 0: every simulator's FIRST step returns time + jump as its next step (the rest of the run happens at large times)
         self.p_time_echo = p_time_echo  # probability that a get_data reply carries 'time' = the step time (as a fresh int object)
         self.p_extra = p_extra  # probability that a get_data reply also contains an attribute / an entity nobody asked for
@@ -60,7 +64,12 @@ class RandomBehaviour:
         for eid, attrs in sorted(req.items()):
             d = {}
             for a in sorted(set(attrs)):
-                if S.is_pers(a):
+                if S.is_pers(a) and self.hold:
+                    import sys as _sys
+
+                    d[a] = _sys.intern(tok(p.sid, f"h{(p.k - 1) // self.hold}", a, eid))
+                    any_pers = True
+                elif S.is_pers(a):
                     d[a] = tok(p.sid, p.k, a, eid) if not self.recur else tok(p.sid, f"r{p.k % self.recur}", a, eid)
                     any_pers = True
                 elif r.random() < self.p_event:
@@ -72,7 +81,10 @@ class RandomBehaviour:
                         # None and other falsy or structured values are legal VALUES, not "no output"
                         d[a] = rn.choice([None, None, 0, "", False, [d[a]], {"v": d[a]}])
             data[eid] = d
-        if typ != "time-based" and any_pers and self.future_pers:
+        if self.hold and typ != "time-based" and any_pers:
+            if (p.k - 1) % self.hold == 0:
+                data["time"] = t + self.rng(p.sid, "hold", p.k).choice([1, 2])
+        elif typ != "time-based" and any_pers and self.future_pers:
             # persistent values dated into the future by a CONSTANT offset per simulator (output times stay in production order:
             # which of two values is "the most recent" when a later step dates its output earlier is left open by the property)
             c = self.rng(p.sid, "fp", 0).choice(self.future)
